@@ -2258,8 +2258,11 @@ def convert_squared_difference(op, arch, nng):
         DebugDatabase.add_optimised(op, mul_op)
 
         # Calculate the raw diff
-        # (the difference has the shape of the result: the first operand may be the one that is broadcast)
+        # (the difference has the shape of the result: the first operand may be the one that is broadcast. The result as the
+        # operator sees it: the OFM tensor is the reshaped one when a RESHAPE behind the operator has already been bypassed)
+        result_shape = op.ofm_shapes[0].as_list() if op.ofm_shapes else list(ofm.shape)
         raw_diff = ofm.clone(suffix="_raw_diff", set_unique=True)
+        raw_diff.shape = raw_diff.storage_shape = raw_diff.bandwidth_shape = list(result_shape)
         raw_diff.dtype = DataType.int32
         raw_diff.quantization = None
         sub_op = Operation(Op.Sub, op.name + "_raw_diff")
@@ -2271,6 +2274,7 @@ def convert_squared_difference(op, arch, nng):
 
         # Calculate the squared diff
         squared_raw = ofm.clone(suffix="_squared_raw", set_unique=True)
+        squared_raw.shape = squared_raw.storage_shape = squared_raw.bandwidth_shape = list(result_shape)
         squared_raw.dtype = DataType.int32
         squared_raw.quantization = None
         mul_op = Operation(Op.Mul, op.name + "_squared_raw")
